@@ -278,4 +278,12 @@ def chainBlocksOK (genes : List Gene) (out : List (String × List (List Comp))) 
         ⟨g.index, g.strand, g.region, o.2.flatten, (keptComps g.name g.domains).isEmpty⟩)).isSublist line
   && out.all fun o => o.2.all fun m => isInfixB m line && !m.contains sepComp
 
+
+/-! ### the reported aSModule against the module it was made from -/
+
+/-- the feature's domains are, in order, the domains of the module's components: same gene, same
+    protein coordinates (`doms`: locus, protein start, protein end of each domain feature) -/
+def featureFollows (comps : List Comp) (doms : List (String × Int × Int)) : Bool :=
+  doms == comps.map fun c => (c.locus, c.start, c.stop)
+
 end ASV.Modules.Spec
